@@ -50,10 +50,12 @@ If the current thread is a `tokio` thread then this call will be executed using 
 */
 pub fn blocking_flush<T: Channel>(sender: &Sender<T>, timeout: Duration) -> bool {
     match tokio::runtime::Handle::try_current() {
-        // If we're on a `tokio` thread then await
-        Ok(handle) => handle.block_on(flush(sender, timeout)),
-        // If we're not on a `tokio` thread then run a regular blocking variant
-        Err(_) => sync::blocking_flush(sender, timeout),
+        // If we're on a multi-threaded `tokio` runtime then tell it we're about to block
+        Ok(handle) if handle.runtime_flavor() == tokio::runtime::RuntimeFlavor::MultiThread => {
+            tokio::task::block_in_place(|| sync::blocking_flush(sender, timeout))
+        }
+        // In any other case run a regular blocking variant
+        _ => sync::blocking_flush(sender, timeout),
     }
 }
 
@@ -81,10 +83,12 @@ pub fn blocking_send<T: Channel>(
     timeout: Duration,
 ) -> Result<(), BatchError<T::Item>> {
     match tokio::runtime::Handle::try_current() {
-        // If we're on a `tokio` thread then await
-        Ok(handle) => handle.block_on(send(sender, msg, timeout)),
-        // If we're not on a `tokio` thread then run a regular blocking variant
-        Err(_) => sync::blocking_send(sender, msg, timeout),
+        // If we're on a multi-threaded `tokio` runtime then tell it we're about to block
+        Ok(handle) if handle.runtime_flavor() == tokio::runtime::RuntimeFlavor::MultiThread => {
+            tokio::task::block_in_place(|| sync::blocking_send(sender, msg, timeout))
+        }
+        // In any other case run a regular blocking variant
+        _ => sync::blocking_send(sender, msg, timeout),
     }
 }
 
